@@ -1092,7 +1092,61 @@ def case_invalid(rng, ctx):
 # =====================================================================
 # random trees through the constructors
 # =====================================================================
+def case_big_tree(rng, ctx):
+    """A tree with more leaves than 15 / 16 bits count, assembled level by level through the public constructors."""
+    n = int(rng.choice([32767, 32769, 40000, 65537]))
+    order = rng.permutation(n)
+    nodes = [TreeNode(index=int(i)) for i in order]
+    counts = [1] * n
+    while len(nodes) > 1:
+        nxt, ncnt = [], []
+        for a in range(0, len(nodes) - 1, 2):
+            nxt.append(TreeNode([nodes[a], nodes[a + 1]], [1.0, 2.0]))
+            ncnt.append(counts[a] + counts[a + 1])
+        if len(nodes) % 2:
+            nxt.append(nodes[-1]); ncnt.append(counts[-1])
+        nodes, counts = nxt, ncnt
+    root = nodes[0]
+    ctx.log({"big_tree": n})
+    ctx.op("big_tree")
+    ctx.mark_nontrivial()
+    ctx.state(("big_tree", n))
+    ctx.oracle("leaves_are_range_n")
+    try:
+        tree = Tree(root)
+    except TreeError as e:
+        ctx.fail("leaves_are_range_n", "Tree() refused a tree whose %d leaves carry the indices 0..%d: %s" % (n, n - 1, e))
+    lv = tree.leaves
+    if len(tree) != n or len(lv) != n or any(lv[i].index != i for i in (0, 1, 32767 % n, 32768 % n, n - 1)):
+        ctx.fail("leaves_are_range_n", "tree of %d leaves: len(tree) = %d, %d leaves listed, or leaves[i].index != i" % (n, len(tree), len(lv)))
+    gi = root.get_indices()
+    if root.get_leaf_count() != n or len(gi) != n or not np.array_equal(np.sort(np.asarray(gi)), np.arange(n)):
+        ctx.fail("leaves_are_range_n", "tree of %d leaves: get_leaf_count() = %r, get_indices() has %d entries" % (n, root.get_leaf_count(), len(gi)))
+    left = root.children[0]
+    if left.get_leaf_count() + root.children[1].get_leaf_count() != n:
+        ctx.fail("leaves_are_range_n", "tree of %d leaves: the leaf counts of the two root children add up to %d"
+                 % (n, left.get_leaf_count() + root.children[1].get_leaf_count()))
+    a, b = lv[0], lv[n - 1]
+    ctx.oracle("path_queries")
+    anc = tree.get_distance(0, n - 1)
+    # explicit path sum over parents
+    def up(x):
+        out = {}
+        d = 0.0
+        while x is not None:
+            out[id(x)] = d
+            d += x.distance if x.distance is not None else 0.0
+            x = x.parent
+        return out
+    ua, ub = up(a), up(b)
+    best = min(ua[k] + ub[k] for k in ua if k in ub)
+    if abs(anc - best) > 1e-9 * max(1.0, best):
+        ctx.fail("path_queries", "tree of %d leaves: get_distance(0, %d) = %r, explicit path sum %r" % (n, n - 1, anc, best))
+
+
 def case_random_tree(rng, ctx):
+    if ctx.index % 500 == 499:
+        return case_big_tree(rng, ctx)
     n = 1 if rng.random() < 0.03 else pick_n(rng, 2)
     style = str(rng.choice(["unit", "ints", "zeros", "neg", "gapped", "unit"]))
     scale = pick_scale(rng)
